@@ -4,6 +4,7 @@ by a concrete evaluator of the BASIC09 subset they use (tx/b09mini.py, semantics
 text, exhaustively over a small domain - a *bounded* check, labelled as such, never counted as proved - and the call
 sites that bind their parameters are checked against the PARAM order (shared with C04/C14)."""
 import itertools
+import re
 
 from tx.tier import THOROUGH, pick
 from tx import b09mini, ecbsig, f2, opaque
@@ -42,7 +43,11 @@ def instr():
                     want = instr_spec(index, s, p)
                     n += 1
                     try:
-                        got = proc.run(float(index), s, p, 99.0)[3]   # the result variable holds garbage on entry
+                        after = proc.run(float(index), s, p, 99.0)   # the result variable holds garbage on entry
+                        got = after[3]
+                        # frame: parameters are passed by reference - the helper writes its result parameter only
+                        if after[:3] != [float(index), s, p]:
+                            got = "arguments changed to %r" % (after[:3],)
                     except b09mini.B09Error as e:
                         got = "ERROR %d" % e.code
                     if got != want:
@@ -134,6 +139,20 @@ def filter_chain():
             want = 0.0 if x is None else x
             if got != want:
                 bad.append(dict(item=x, string=s, read=got))
+        # ... and from source text: the numerals of a DATA line with an empty item, through the real parser and patcher
+        from coco.b09.compiler import convert
+        src_items = [("", 0.0), ("1E-2", 0.01), ("2.5E+1", 25.0), ("-4E-1", -0.4), (".5", 0.5), ("-.25E1", -2.5), ("1 E 2", 100.0), ("&HFF", 255.0), ("12", 12.0), ("- 3", -3.0)]
+        try:
+            text = convert("10 DATA %s\n20 READ %s\n" % (",".join(t for t, _ in src_items), ",".join("V%d" % k for k in range(len(src_items)))), add_standard_prefix=False)
+            lits = re.findall(r'"([^"]*)"', next(l for l in text.split("\n") if "DATA" in l))
+            if len(lits) != len(src_items):
+                bad.append(dict(source="DATA line", emitted=lits))
+            for (t, want), litv in zip(src_items, lits):
+                got = proc.run(litv, 99.0)[1]
+                if abs(got - want) > 1e-9:
+                    bad.append(dict(item=t, string=litv, read=got, expected=want))
+        except Exception as e:  # noqa
+            bad.append(dict(source="DATA line", error="%s: %s" % (type(e).__name__, str(e)[:100])))
         return [ob("read-filter/patched DATA item reads back as its value", not bad, "value preserved through str -> VAL", bad or "%d items" % len(items), bounded="ten numeric items, eight hex items and one empty item")]
     return guarded("read-filter/chain", run)
 
